@@ -1341,8 +1341,10 @@ static ByCase genBy()
   for (int q = 0; q < nops; q++) c.ops.push_back(G::i(0, 4));
   return c;
 }
+static void dbgMsg(const char* s) { diag(std::string("LIB: ") + s); }
 static void runBy(const ByCase& bc, Ctx& ctx)
 {
+  if (getenv("C04_DEBUG")) { redefine_error(dbgMsg); redefine_message(dbgMsg); }
   const KCase& c = bc.k;
   labelCase(c, ctx);
   ctx.sig = Hash().add(signature(c)).add((int)bc.ops.size()).h;
@@ -1413,7 +1415,7 @@ static void runBy(const ByCase& bc, Ctx& ctx)
       VectorDouble e = w.dbout->getColumn(base + ".estim", false), s = w.dbout->getColumn(base + ".stdev", false);
       for (int k = 0; k < nt; k++) { be[(size_t)(k * nv + v)] = e[k]; bs[(size_t)(k * nv + v)] = s[k]; }
     }
-  if (err) { ctx.fail("kcalc-bayes:kribayes-error:" + cls, fmt("kribayes() fails (%d) on a valid configuration", err)); return; }
+  if (err) { ctx.fail("kcalc-bayes:kribayes:" + cls + ":error", fmt("kribayes() fails (%d) on a valid configuration", err)); return; }
 
   KrigingCalcul kcal(false);
   ctx.at("kcalc-bayes:setters");
@@ -1456,7 +1458,12 @@ static void runBy(const ByCase& bc, Ctx& ctx)
       {
         LD sc = 0;
         for (int i = 0; i < ne; i++) sc += fabsl(lam(i, tv) * Zv(i, 0));
-        for (int j = 0; j < nf; j++) sc += fabsl(Y0(tv, j) * beta(j, 0));
+        for (int j = 0; j < nf; j++)
+        {
+          LD y = fabsl(X0(tv, j)); // Y0 = X0 - lambda' X is itself a difference
+          for (int i = 0; i < ne; i++) y += fabsl(lam(i, tv) * X(i, j));
+          sc += y * (fabsl(beta(j, 0)) + fabsl(mp(j, 0)));
+        }
         LD sv = fabsl(S00(tv, tv)) + fabsl((lam.col(tv).transpose() * S0.col(tv))(0, 0)) + fabsl((Y0.row(tv) * Sc * Y0.row(tv).transpose())(0, 0));
         LD expd = (op == 0) ? zs(tv, 0) : std::max((LD)0, var(tv, tv));
         LD tol = (LD)er * ((op == 0) ? sc : sv) + 1e-300L;
@@ -1471,7 +1478,7 @@ static void runBy(const ByCase& bc, Ctx& ctx)
         LD kg = (op == 0) ? (LD)kb : (LD)kb * kb;
         if (isNA(kb) || !(fabsl(kg - g) <= 10 * tol))
         {
-          ctx.fail(std::string("kcalc-bayes:kribayes:") + (op == 0 ? "estim:" : "stdev:") + cls, fmt("target %d var %d: kribayes() %.15Lg, calculator %.15Lg, formulae %.15Lg (tol %.3Lg, %d drift equations, %d of %d samples used)", k, tv, kg, g, expd, 10 * tol, nf, (int)all.size(), c.n()));
+          ctx.fail("kcalc-bayes:kribayes:" + cls + (op == 0 ? ":estim" : ":stdev"), fmt("target %d var %d: kribayes() %.15Lg, calculator %.15Lg, formulae %.15Lg (tol %.3Lg, %d drift equations, %d of %d samples used)", k, tv, kg, g, expd, 10 * tol, nf, (int)all.size(), c.n()));
           return;
         }
       }
@@ -1500,5 +1507,201 @@ static void runBy(const ByCase& bc, Ctx& ctx)
 }
 VERIF_SUB(kcalc_bayes, ByCase, genBy, runBy);
 
-//@@NEXT@@
+// ---------------------------------------------------------------- 7e. collocated option of the calculator ----
+static void runKcCc(const CcCase& cc, Ctx& ctx)
+{
+  const KCase& c = cc.k;
+  labelCase(c, ctx);
+  ctx.sig = signature(c);
+  World w;
+  if (!buildWorld(c, w, ctx)) return;
+  int nt = c.ntarg(), nv = c.nvar;
+  std::vector<int> all = admissibleAll(c);
+  if (all.empty()) { ctx.label("no-data"); return; }
+  bool wantVarz = c.flagVarz != 0;
+  std::string V = c.family();
+  bool nzMean = false;
+  for (double v : c.means) nzMean = nzMean || v != 0.;
+  std::string cls = V + ((c.order < 0 && nzMean) ? ":nonzero-mean" : "");
+  KcIn in;
+  if (!buildKcIn(c, w.dbin.get(), w.dbout.get(), ctx, in)) return;
+  if (!(in.kappaSigma <= kKappaMax)) { ctx.inconclusive("ill-conditioned"); return; }
+  double eta = etaIn(c);
+  KrigingCalcul kcal(false);
+  ctx.at("kcalc-colcok:setters");
+  if (kcal.setData(&in.Z, &in.means) || kcal.setLHS(&in.Sigma, in.hasX ? &in.X : nullptr) || kcal.setVar(&in.Sigma00))
+  {
+    ctx.fail("kcalc-colcok:setter-error:" + V, "a setter of KrigingCalcul rejects consistent inputs");
+    return;
+  }
+  int nChecked = 0, nIll = 0, nCol = 0;
+  VectorDouble Zp((size_t)nv);
+  VectorInt ranks;
+  for (int k = 0; k < nt; k++)
+  {
+    const double* x = c.targ.p(k);
+    const double* f = c.nfex ? &c.ftar[(size_t)(k * c.nfex)] : nullptr;
+    std::vector<double> zk(cc.zc.begin() + k * nv, cc.zc.begin() + (k + 1) * nv);
+    ranks.clear();
+    for (int v = 0; v < nv; v++)
+    {
+      Zp[v] = 0.;
+      if (isNA(zk[(size_t)v])) continue;
+      Zp[v] = zk[(size_t)v] - in.means[v];
+      ranks.push_back(v);
+    }
+    bool any = !ranks.empty();
+    // reference: standard kriging with the collocated datum added to the data
+    KCase b = any ? oneTarget(addSample(c, x, zk, f), x, f) : oneTarget(c, x, f);
+    World wb;
+    if (!buildWorld(b, wb, ctx)) return;
+    ctx.at("kriging:added-datum:" + V);
+    KRes B = runK(wb.dbin.get(), wb.dbout.get(), wb.model.get(), wb.neigh.get(), nv, false, VectorInt(), VectorInt(), "KA", wantVarz);
+    if (B.err || !B.cols) { ctx.fail("kcalc-colcok:reference-error:" + V, "kriging() fails on a valid configuration"); return; }
+    Orc orc;
+    if (!makeOracle(b, wb.dbout.get(), orc)) { ctx.fail("harness:model", "oracle model"); return; }
+    Sys S;
+    orc.o->solve(0, pointGeom(c.ndim, x), admissibleAll(b), S);
+    ctx.at("kcalc-colcok:setRHS");
+    if (kcal.setRHS(&in.Sigma0[(size_t)k], in.hasX ? &in.X0[(size_t)k] : nullptr) || kcal.setColCokUnique(any ? &Zp : nullptr, any ? &ranks : nullptr))
+    {
+      ctx.fail("kcalc-colcok:setter-error:" + V, "setRHS / setColCokUnique reject consistent inputs");
+      return;
+    }
+    if (!S.solved || !(S.kappa <= kKappaMax)) { nIll++; continue; }
+    nChecked++;
+    if (any) nCol++;
+    double kap = std::max(S.kappa, in.kappaSigma);
+    std::vector<int> ops = cc.ops;
+    for (int q = 0; q < 3; q++) ops.push_back(q);
+    for (int op : ops)
+    {
+      if (op == 2 && !wantVarz) continue;
+      ctx.at(std::string("kcalc-colcok") + (op == 0 ? ":getEstimation" : (op == 1 ? ":getStdv" : ":getVarianceZstar")));
+      VectorDouble got = (op == 0) ? kcal.getEstimation() : (op == 1 ? kcal.getStdv() : kcal.getVarianceZstar());
+      const char* what = (op == 0) ? "estimation" : (op == 1 ? "stdv" : "varZ*");
+      std::string key = std::string("kcalc-colcok:") + (op == 0 ? "estim" : (op == 1 ? "stdev" : "varz")) + ":" + cls;
+      if ((int)got.size() != nv) { ctx.fail(key + ":size", fmt("%s: %d values returned for %d variables (target %d, %d collocated values)", what, (int)got.size(), nv, k, (int)ranks.size())); return; }
+      for (int tv = 0; tv < nv; tv++)
+      {
+        Tol t = tolOf(S, eta, tv, in.kappaSigma);
+        double expd = (op == 0) ? B.est[(size_t)tv] : (op == 1 ? B.sd[(size_t)tv] : B.vz[(size_t)tv]);
+        if (getenv("C04_DEBUG")) diag(fmt("DBG k %d op %d tv %d got %.15g ref %.15g oracle est %.15Lg var %.15Lg varz %.15Lg", k, op, tv, got[tv], expd, S.estim[(size_t)tv], S.var[(size_t)tv], S.varz[(size_t)tv]));
+        if (!cmpVal(ctx, key, what, k, tv, got[tv], expd, 5 * (op == 0 ? t.e : t.v), kap, op == 1)) return;
+      }
+    }
+  }
+  if (nChecked == 0 && nIll > 0) ctx.inconclusive("ill-conditioned");
+  ctx.nontrivial(nCol > 0);
+}
+VERIF_SUB(kcalc_colcok, CcCase, genCc, runKcCc);
+
+// ---------------------------------------------------------------- 7f. cross-validation option of the calculator ----
+struct XvCase
+{
+  KCase k;
+  int isamp = 0;
+  std::vector<int> vars; // nvar flags
+  std::vector<int> ops;
+  template<class A> void io(A& a) { a("k", k)("isamp", isamp)("vars", vars)("ops", ops); }
+};
+static XvCase genXvc()
+{
+  XvCase c;
+  GenOpt o = optKc();
+  o.nMax = 24;
+  c.k = genCase(o);
+  zeroSomeMeans(c.k);
+  c.isamp = G::i(0, 1000);
+  for (int v = 0; v < c.k.nvar; v++) c.vars.push_back(G::pct(60) ? 1 : 0);
+  int nops = G::i(1, 6);
+  for (int q = 0; q < nops; q++) c.ops.push_back(G::i(0, 2));
+  return c;
+}
+static void runKcXv(const XvCase& xc, Ctx& ctx)
+{
+  const KCase& c = xc.k;
+  labelCase(c, ctx);
+  ctx.sig = signature(c);
+  int nv = c.nvar, n = c.n();
+  std::vector<int> all = admissibleAll(c);
+  if ((int)all.size() < 2) { ctx.label("fewer-than-2-data"); return; }
+  int i0 = all[(size_t)(xc.isamp % (int)all.size())];
+  std::vector<int> xv; // cross-validated variables (defined at i0)
+  for (int v = 0; v < nv; v++)
+    if (xc.vars[(size_t)v] && c.zdef(i0, v)) xv.push_back(v);
+  if (xv.empty())
+    for (int v = 0; v < nv && xv.empty(); v++)
+      if (c.zdef(i0, v)) xv.push_back(v);
+  VectorInt eqs, evars;
+  {
+    int idx = 0;
+    for (int v = 0; v < nv; v++)
+      for (int i = 0; i < n; i++)
+      {
+        if (!c.active(i) || !c.zdef(i, v)) continue;
+        if (i == i0 && std::find(xv.begin(), xv.end(), v) != xv.end()) { eqs.push_back(idx); evars.push_back(v); }
+        idx++;
+      }
+  }
+  int nx = (int)eqs.size();
+  bool wantVarz = c.flagVarz != 0;
+  std::string V = c.family();
+  bool nzMean = false;
+  for (double v : c.means) nzMean = nzMean || v != 0.;
+  std::string cls = V + ((c.order < 0 && nzMean) ? ":nonzero-mean" : "");
+  ctx.label(nx == 1 ? "xvalid:one-equation" : "xvalid:several-equations");
+  // reference: standard kriging of the cross-validated variables at x_i0 from the data without those values
+  KCase b = oneTarget(c, c.data.p(i0), c.nfex ? &c.fdat[(size_t)(i0 * c.nfex)] : nullptr);
+  for (int v : xv) b.z[(size_t)(i0 * nv + v)] = NA;
+  std::vector<int> nb = admissibleAll(b);
+  if (nb.empty()) { ctx.label("no-data-left"); return; }
+  World wb;
+  if (!buildWorld(b, wb, ctx)) return;
+  ctx.at("kriging:deplemented:" + V);
+  KRes B = runK(wb.dbin.get(), wb.dbout.get(), wb.model.get(), wb.neigh.get(), nv, false, VectorInt(), VectorInt(), "KD", wantVarz);
+  if (B.err || !B.cols) { ctx.fail("kcalc-xvalid:reference-error:" + V, "kriging() fails on a valid configuration"); return; }
+  Orc orc;
+  if (!makeOracle(b, wb.dbout.get(), orc)) { ctx.fail("harness:model", "oracle model"); return; }
+  Sys S;
+  orc.o->solve(0, pointGeom(c.ndim, c.data.p(i0)), nb, S);
+  // the calculator works on the complete data set
+  World w;
+  if (!buildWorld(c, w, ctx)) return;
+  KcIn in;
+  if (!buildKcIn(c, w.dbin.get(), w.dbout.get(), ctx, in)) return;
+  if (!S.solved || !(S.kappa <= kKappaMax) || !(in.kappaSigma <= kKappaMax)) { ctx.inconclusive("ill-conditioned"); return; }
+  double eta = etaIn(c);
+  double kap = std::max(S.kappa, in.kappaSigma);
+  KrigingCalcul kcal(false);
+  ctx.at("kcalc-xvalid:setters");
+  if (kcal.setData(&in.Z, &in.means) || kcal.setLHS(&in.Sigma, in.hasX ? &in.X : nullptr) || kcal.setVar(&in.Sigma00))
+  {
+    ctx.fail("kcalc-xvalid:setter-error:" + V, "a setter of KrigingCalcul rejects consistent inputs");
+    return;
+  }
+  ctx.at("kcalc-xvalid:setXvalidUnique");
+  if (kcal.setXvalidUnique(&eqs, &evars)) { ctx.fail("kcalc-xvalid:setter-error:" + V, "setXvalidUnique rejects consistent inputs"); return; }
+  std::vector<int> ops = xc.ops;
+  for (int q = 0; q < 3; q++) ops.push_back(q);
+  for (int op : ops)
+  {
+    if (op == 2 && !wantVarz) continue;
+    ctx.at(std::string("kcalc-xvalid") + (op == 0 ? ":getEstimation" : (op == 1 ? ":getStdv" : ":getVarianceZstar")));
+    VectorDouble got = (op == 0) ? kcal.getEstimation() : (op == 1 ? kcal.getStdv() : kcal.getVarianceZstar());
+    const char* what = (op == 0) ? "estimation" : (op == 1 ? "stdv" : "varZ*");
+    std::string key = std::string("kcalc-xvalid:") + (op == 0 ? "estim" : (op == 1 ? "stdev" : "varz")) + ":" + cls;
+    if ((int)got.size() != nx) { ctx.fail(key + ":size", fmt("%s: %d values returned for %d cross-validated equations", what, (int)got.size(), nx)); return; }
+    for (int q = 0; q < nx; q++)
+    {
+      int tv = evars[q];
+      Tol t = tolOf(S, eta, tv, in.kappaSigma);
+      double expd = (op == 0) ? B.est[(size_t)tv] : (op == 1 ? B.sd[(size_t)tv] : B.vz[(size_t)tv]);
+      if (!cmpVal(ctx, key, what, i0, tv, got[q], expd, 10 * (op == 0 ? t.e : t.v), kap, op == 1)) return;
+    }
+  }
+  ctx.nontrivial(true);
+}
+VERIF_SUB(kcalc_xvalid, XvCase, genXvc, runKcXv);
+
 VERIF_MAIN()
